@@ -104,7 +104,7 @@ def run(ctx):
     h = G.build_harness(ctx)
     if not (drv and h):
         return
-    n = 150 if ctx.tier == "quick" else 3000
+    n = 120 if ctx.tier == "quick" else 1200
     if ctx.broken:
         n *= 10
     if ctx.replay:
